@@ -422,4 +422,21 @@ def run(ctx):
     from share import relabel
     from rules.c20 import order_rules
     obs += relabel(order_rules(ctx), "C20.order", "C13.lazy/order")
+    # wave 11: the code emitted for one file does not depend on which other files are in the group at that moment: the generator
+    # asks the group for its configuration only (resolved callees of every body under proc_gen)
+    asked, n_cfg = set(), 0
+    for b in ctx.mir.by_crate.get("glass_easel_template_compiler", []):
+        if not b["root"].startswith("proc_gen::"):
+            continue
+        for c in b["calls"]:
+            nm = sir.norm_mir_name(c["callee"])
+            if nm.startswith("group::TmplGroup::") or "::TmplGroup::" in nm:
+                meth = nm.split("::")[-1]
+                if meth in ("dev",):
+                    n_cfg += 1
+                else:
+                    asked.add("%s calls TmplGroup::%s" % (b["root"].split("::")[-1], meth))
+    obs.append(ctx.ob("C13.lazy/generator-group-blind", not asked and n_cfg >= 1, "proc_gen/tag.rs",
+                      "; ".join(sorted(asked)) if asked else "the generator reads the group's configuration only (%d site(s))" % n_cfg,
+                      witness=None if not asked else "get_tmpl_gen_object('page') before add_tmpl('part'): the <include> link is left out, although direct_dependencies reports it"))
     return obs
